@@ -272,13 +272,19 @@ theorem list_literal_plain (s : List Nat) (bs : List Str) (hs : s ≠ []) (hpos 
   rw [this]
   exact remove_of_not_mem (hc b hb).2
 
-/-- **the `array_tuple!` loop ends on every text**: with `n` opening parentheses in the text, `n + 2` iterations are all
-the loop can use; more fuel never changes the outcome (so the model's "out of fuel" answer never stands for a loop that
-would go on: `arrayTuple` gives the loop `text.length + 1 ≥ n + 1` iterations and the `n + 2`-nd, if reached, is a panic
-anyway — see `tuple_adjacent_parens`). -/
+/-- **the `array_tuple!` loop ends on every text**: with `n` opening parentheses in the text, `n + 1` iterations are all
+the loop can use (an iteration removes the first `(`, or panics, or is the single no-progress iteration of
+`tuple_adjacent_no_progress`, which is followed by a panic); more fuel never changes the outcome. -/
 theorem tuple_loop_ends (n : Nat) (text : Str) (acc : List Str) (k : Nat) (h : text.count '(' ≤ n) :
-    cutTuples (n + 2 + k) text acc = cutTuples (n + 2) text acc :=
+    cutTuples (n + 1 + k) text acc = cutTuples (n + 1) text acc :=
   cutTuples_fuel n text acc k h
+
+/-- the fuel `text.length + 1` that `arrayTuple` / `arrayList` give their loops is never what decides the answer: the
+model's `panic` never stands for a loop that would go on -/
+theorem typed_loops_fuel_suffices (text : Str) (acc : List Str) (k : Nat) :
+    cutTuples (text.length + 1 + k) text acc = cutTuples (text.length + 1) text acc
+    ∧ cutLists (text.length + 1 + k) text acc = cutLists (text.length + 1) text acc :=
+  ⟨cutTuples_fuel_text text acc k, cutLists_fuel_text text acc k⟩
 
 /-- **the `array_list!` cut-out loop ends on every text** within `count('&') + 1` iterations -/
 theorem list_loop_ends (n : Nat) (text : Str) (acc : List Str) (k : Nat) (h : text.count '&' ≤ n) :
